@@ -25,4 +25,5 @@ def run(ctx):
     ML.rule_parser_lists(ctx)
     ML.rule_version_gates(ctx)
     X.rule_fraction_str(ctx)
+    X.rule_from_instance_rounding(ctx)
     G.rule_F8a(ctx, ["partitura.io.importmatch:parse_matchline", "partitura.io.matchlines_v1:to_v1"], "match lines")
